@@ -2,6 +2,7 @@ package main
 
 import (
 	"fmt"
+	"os"
 	"go/constant"
 	"go/token"
 	"go/types"
@@ -60,6 +61,7 @@ type Exec struct {
 	forkAt   map[string]int
 	funcs    map[string]bool
 	toUpperMemo map[string]*StrV
+	known    map[*Term]bool // alternatives asserted on the current path (pointer-equal terms are implied)
 }
 
 type obsItem struct {
@@ -105,8 +107,17 @@ func (ex *Exec) forkE(mk func() ([]*Term, []uint64), elim bool) (int, []uint64) 
 			// The byte domains over-approximate the path condition. If they refute all but one alternative,
 			// the remaining one is implied by the path condition (same on every replay: the domains are a
 			// deterministic function of the decisions taken so far).
+			for j, a := range alts {
+				if !a.IsConst() && ex.known[a] {
+					ex.impliedN++
+					return j, data
+				}
+			}
 			live, liveN := -1, 0
 			for j, a := range alts {
+				if !a.IsConst() && ex.known[Not(a)] {
+					continue
+				}
 				if a.IsConst() {
 					if a.BoolVal() {
 						live, liveN = j, liveN+1
@@ -132,6 +143,7 @@ func (ex *Exec) forkE(mk func() ([]*Term, []uint64), elim bool) (int, []uint64) 
 		d := ex.decisions[ex.dpos]
 		ex.dom = ex.domStack[ex.dpos].clone()
 		ex.dom.apply(d.alts[d.cur])
+		ex.known[d.alts[d.cur]] = true
 		ex.dpos++
 		return d.cur, d.data
 	}
@@ -149,6 +161,7 @@ func (ex *Exec) forkE(mk func() ([]*Term, []uint64), elim bool) (int, []uint64) 
 	}
 	ex.domStack = append(ex.domStack, before)
 	ex.dom.apply(d.alts[d.cur])
+	ex.known[d.alts[d.cur]] = true
 	ex.dpos++
 	return d.cur, d.data
 }
@@ -195,6 +208,14 @@ func (ex *Exec) branch(c *Term) bool {
 	}
 	if ex.noFork {
 		panic(noForkMarker{})
+	}
+	if ex.known[c] {
+		ex.impliedN++
+		return true
+	}
+	if ex.known[Not(c)] {
+		ex.impliedN++
+		return false
 	}
 	if ex.useDom {
 		// implied branches create no decision
@@ -357,17 +378,23 @@ func (ex *Exec) call(fn *ssa.Function, args []Val, env []Val) Val {
 			if ex.steps > ex.maxSteps {
 				ex.end("violation", "step bound exceeded (possible non-termination)")
 			}
+			if debugTrace && ex.steps > ex.maxSteps-60 {
+				fmt.Fprintf(os.Stderr, "TRACE %s b%d %T %v\n", fn.Name(), fr.block.Index, in, in)
+			}
 			switch x := in.(type) {
 			case *ssa.Jump:
 				fr.prev, fr.block = fr.block, fr.block.Succs[0]
+				fr.phiOverride = nil
 			case *ssa.If:
 				c := ex.get(fr, x.Cond).(*Term)
 				if ex.useCone && !c.IsConst() {
 					ex.takeIf(fr, fr.block, c)
 				} else if ex.branch(c) {
 					fr.prev, fr.block = fr.block, fr.block.Succs[0]
+					fr.phiOverride = nil
 				} else {
 					fr.prev, fr.block = fr.block, fr.block.Succs[1]
+					fr.phiOverride = nil
 				}
 			case *ssa.Return:
 				switch len(x.Results) {
@@ -549,10 +576,10 @@ func (ex *Exec) builtin(x *ssa.Call, b *ssa.Builtin, args []Val) Val {
 		// always reallocate: simple and safe for non-aliasing uses
 		n := &SliceV{}
 		for i := 0; i < s.len; i++ {
-			n.arr = append(n.arr, &Obj{v: load(s.arr[s.off+i]), agg: s.arr[s.off+i].agg, sub: s.arr[s.off+i].sub})
+			n.arr = append(n.arr, objFromVal(load(s.arr[s.off+i])))
 		}
 		for _, v := range add {
-			n.arr = append(n.arr, &Obj{v: v})
+			n.arr = append(n.arr, objFromVal(v))
 		}
 		n.len, n.cap = len(n.arr), len(n.arr)
 		return n
@@ -1037,4 +1064,27 @@ func (ex *Exec) strEqConst(a *StrV, k string) *Term {
 		cs = append(cs, c)
 	}
 	return And(cs...)
+}
+
+var debugTrace = os.Getenv("SYMGO_TRACE") != ""
+
+// objFromVal builds a fresh object tree holding (a copy of) the value v.
+func objFromVal(v Val) *Obj {
+	switch x := v.(type) {
+	case *StructV:
+		o := &Obj{agg: 1}
+		for _, f := range x.f {
+			o.sub = append(o.sub, objFromVal(f))
+		}
+		return o
+	case *ArrayV:
+		o := &Obj{agg: 2}
+		for _, e := range x.e {
+			o.sub = append(o.sub, objFromVal(e))
+		}
+		return o
+	case *BuilderV:
+		return &Obj{v: &BuilderV{b: append([]*Term(nil), x.b...)}}
+	}
+	return &Obj{v: v}
 }
